@@ -14,7 +14,7 @@ COQ_IMPORTS = 'From PB Require Import model.M_join.\n'
 COQ_PRELUDE = '''Definition run_both (c : ctable * ctable * spec * spec) : J :=
   let '(x, y, lc, rc) := c in JL [run_join (x, y, lc, rc, MLeft); run_xor (x, y, lc, rc, false)].
 '''
-PER_FILE = 500
+PER_FILE = 300
 CASE_TIMEOUT = 4
 # xor with NO key column returns x.copy() whatever y holds (pinned by tests/test_dictable.py::test_dictable_xor_no_rhs);
 # by the letter of the property the empty key matches every row of y, so the result should be empty when y has rows.
@@ -518,8 +518,8 @@ def rename_columns(rng, case):
     case['renamed'] = True
 
 def large_case(rng):
-    """tables of 70-180 rows: the sort leaves its small-list path (n >= 64), long merges, long groups"""
-    nx = rng.randrange(70, 181); ny = rng.randrange(70, 181)
+    """tables of 70-150 rows: the sort leaves its small-list path (n >= 64), long merges, long groups"""
+    nx = rng.randrange(70, 151); ny = rng.randrange(70, 151)
     K = max(nx, ny) * 2 // 3
     pool = [['i', i] for i in range(K)]
     if rng.random() < 0.6:                                # mixed types: sort takes the Cmp path
@@ -623,7 +623,7 @@ def gen_cases(rng, tier):
         cases.append(nan_numeric_case(rng))
     for _ in range(400 if q else 4000):
         cases.append(m2m_shared_case(rng))
-    for _ in range(12 if q else 80):
+    for _ in range(6 if q else 80):
         cases.append(large_case(rng))
     for _ in range(120 if q else 1500):
         cases.append(malformed(rng))
